@@ -7,6 +7,22 @@ use chia_bls::{G1Element, G2Element};
 use k256::ecdsa::signature::hazmat::PrehashSigner;
 
 pub fn build_points() -> Points {
+    if cfg!(miri) {
+        // Miri cannot cross the blst / FFI boundary: fixed byte strings (inputs only)
+        let g1gen = hex::decode("97f1d3a73197d7942695638c4fa9ac0fc3688c4f9774b905a14e3a3f171bac586c55e83ff97a1aeffb3af00adb22c6bb").unwrap();
+        let mut inf1 = vec![0u8; 48];
+        inf1[0] = 0xc0;
+        let mut inf2 = vec![0u8; 96];
+        inf2[0] = 0xc0;
+        return Points {
+            g1: vec![g1gen, inf1],
+            g2: vec![inf2],
+            k1: vec![(vec![2; 33], vec![1; 32], vec![3; 64])],
+            r1: vec![(vec![2; 33], vec![1; 32], vec![3; 64])],
+            bad_g1: vec![vec![0x33; 48]],
+            bad_g2: vec![vec![0x33; 96]],
+        };
+    }
     let mut g1 = Vec::new();
     let mut g2 = Vec::new();
     for i in 1u8..=6 {
